@@ -108,6 +108,22 @@ func c04PassEdges(fn *ssa.Function, g *gateInfo, same func(ssa.Value) bool) (pla
 				pipeClassifiers[n] = true
 			case strings.Contains(strings.ToLower(n), "pipeline") && len(call.Common().Args) > 0 && same(call.Common().Args[0]):
 				pipeClassifiers[n] = true
+			default:
+				// a combined gate of the repository: true only if the platform gate
+				// (and/or the pipeline test) passed for its command parameter
+				if w := call.Common().StaticCallee(); w != nil && w.Blocks != nil && c04depth < 2 {
+					if cp := c04CmdParam(w); cp >= 0 && cp < len(call.Common().Args) && same(call.Common().Args[cp]) {
+						c04depth++
+						pl, pi := c04Implies(w, g, cp)
+						c04depth--
+						if pl {
+							plat[[2]int{iff.Block().Index, tEdge}] = true
+						}
+						if pi {
+							pipe[[2]int{iff.Block().Index, tEdge}] = true
+						}
+					}
+				}
 			}
 			continue
 		}
@@ -116,6 +132,101 @@ func c04PassEdges(fn *ssa.Function, g *gateInfo, same func(ssa.Value) bool) (pla
 		}
 	}
 	return
+}
+
+var c04depth int
+
+// c04CmdParam: index of the *Command parameter of a bool function, or -1.
+func c04CmdParam(w *ssa.Function) int {
+	res := w.Signature.Results()
+	if res.Len() != 1 {
+		return -1
+	}
+	if b, ok := res.At(0).Type().Underlying().(*types.Basic); !ok || b.Kind() != types.Bool {
+		return -1
+	}
+	for i, p := range w.Params {
+		if ssau.NamedOf(p.Type()) == cmdType {
+			return i
+		}
+	}
+	return -1
+}
+
+// c04Implies: w returns true only when the platform gate passed for its
+// command parameter (plat), and only when options.PipelineOnly is false or
+// the pipeline classifier accepted it (pipe).
+func c04Implies(w *ssa.Function, g *gateInfo, cp int) (plat, pipe bool) {
+	cmd := w.Params[cp]
+	same := func(v ssa.Value) bool { return v == ssa.Value(cmd) || ssau.ParamOf(v) == cmd }
+	pl, pi, _ := c04PassEdges(w, g, same)
+	gname := ssau.FuncName(g.fn)
+	check := func(edges map[[2]int]bool, isClassifier func(*ssa.Call) bool) bool {
+		reach := reachableFromEntry(w, edges)
+		for _, ret := range ssau.ReturnsOf(w) {
+			if !reach[ret.Block()] {
+				continue
+			}
+			var okVal func(v ssa.Value, d int) bool
+			okVal = func(v ssa.Value, d int) bool {
+				if ssau.IsConstBool(v, false) {
+					return true
+				}
+				if call, ok := v.(*ssa.Call); ok && isClassifier(call) {
+					return true
+				}
+				if phi, ok := v.(*ssa.Phi); ok && d < 4 {
+					for i, e := range phi.Edges {
+						p := phi.Block().Preds[i]
+						if !reach[p] {
+							continue
+						}
+						// an edge that itself is a pass edge carries the verdict
+						via := false
+						for k, sc := range p.Succs {
+							if sc == phi.Block() && edges[[2]int{p.Index, k}] {
+								via = true
+							}
+						}
+						if via {
+							continue
+						}
+						if !okVal(e, d+1) {
+							return false
+						}
+					}
+					return true
+				}
+				return false
+			}
+			if !okVal(ret.Results[0], 0) {
+				return false
+			}
+		}
+		return true
+	}
+	plat = len(pl) > 0 || hasDirect(w, func(call *ssa.Call) bool { return ssau.CallName(call) == gname && same(call.Common().Args[g.cmdP]) })
+	if plat {
+		plat = check(pl, func(call *ssa.Call) bool { return ssau.CallName(call) == gname && same(call.Common().Args[g.cmdP]) })
+	}
+	isPipe := func(call *ssa.Call) bool {
+		return strings.HasSuffix(ssau.CallName(call), "/database.isPipelineCommand") && same(call.Common().Args[0])
+	}
+	pipe = len(pi) > 0 || hasDirect(w, isPipe)
+	if pipe {
+		pipe = check(pi, isPipe)
+	}
+	return
+}
+
+func hasDirect(w *ssa.Function, pred func(*ssa.Call) bool) bool {
+	found := false
+	ssau.ForEachInstr(w, false, func(in ssa.Instruction) {
+		if call, ok := in.(*ssa.Call); ok && pred(call) {
+			found = true
+		}
+	})
+	return found
 }
 
 func runC04(c *Ctx) {
@@ -363,24 +474,13 @@ func c04Gate(c *Ctx, sx *symx.Ctx, g *gateInfo) {
 		if !ok {
 			continue
 		}
-		if lc, isLen := x.(*ssa.Call); isLen && ssau.CallName(lc) == "builtin.len" {
-			k, isC := ssau.ConstInt(y)
-			arg := lc.Common().Args[0]
-			if isC && k == 0 && isCmdField(arg, "Platform") {
-				switch op {
-				case token.EQL:
-					legit[[2]int{bi, 0}] = true
-				case token.GTR, token.NEQ:
-					legit[[2]int{bi, 1}] = true
-				}
+		_, _, _ = op, x, y
+		if arg, zero, isZ := ssau.LenZeroTest(cond); isZ {
+			if isCmdField(arg, "Platform") {
+				legit[[2]int{bi, zero}] = true
 			}
-			if isC && k == 0 && optLoad(arg, "Platforms") {
-				switch op {
-				case token.EQL:
-					noneReq[[2]int{bi, 0}] = true
-				case token.GTR, token.NEQ:
-					noneReq[[2]int{bi, 1}] = true
-				}
+			if optLoad(arg, "Platforms") {
+				noneReq[[2]int{bi, zero}] = true
 			}
 		}
 	}
